@@ -104,7 +104,7 @@ def check_call(cfg, call):
             want_type = "TimeoutError" if last.label == "timeout" else "OpError"
             if tname != want_type and not (want_type == "OpError"
                                            and tname in ("FalsyOpError", "OpRuntimeError",
-                                                         "FrozenOpError")):
+                                                         "FrozenOpError", "OpGroup")):
                 v.append(("c04.exception-type", f"raised type {tname}, original {want_type}"))
             raised_n = sum(1 for o in call.ops if o.obj == last.obj)
             if tb is None or not tb[0] or tb[1] != raised_n:
